@@ -58,6 +58,12 @@ def check(rep, tier, seed):
         if elements(sh) <= 300:
             for p in rng.sample(range(0, 18), 3):
                 cases_t.append("textw %s %d %s" % (fmt(sh), p, ",".join(tok(v) for v in vals)))
+    # files whose LAST byte (the top byte of the last little-endian double) is an ASCII control / space code, and whose first
+    # value bytes look like text: nothing about a binary file may be trimmed or sniffed beyond the magic
+    for top in (0x09, 0x0a, 0x0c, 0x0d, 0x20, 0x00, 0x23):
+        for sh in ([3], [2, 2]):
+            vals = [random_bits(rng) for _ in range(elements(sh) - 1)] + [(top << 56) | rng.getrandbits(56)]
+            cases_w.append("npyw %s %s" % (fmt(sh), ",".join(tok(v) for v in vals)))
     mo, outs = compare_cases(rep, "npy-writer", cases_w, nontrivial=lambda c, m: "," in c.split()[1],
                              classify=lambda c, m, i: "npy-writer:" + ("panic" if "PANIC" in i else "bytes"), spec=True, both_builds=(tier == "thorough"))
     # read back what the implementation wrote, with the implementation and with the model
